@@ -344,27 +344,73 @@ def rule_map(ctx):
     raised = {e for e in ctx.an.raises(rec)
               if ctx.an.exc.is_sub(e, "TLSProtocolException") or ctx.an.exc.is_sub(e, "TLSError")}
     raised -= {"TLSAbruptCloseError", "TLSClosedConnectionError"}
-    handled = {}
-    for (tr, h, hn) in g.handlers:
-        ty = norm(h.type or ast.Name(id=""))
-        nodes = [n for n in g.nodes if n.id in g.reach([hn], follow_exc=False)]
-        first = [n for n in nodes if n.kind == "noreturn"]
-        handled[ty] = bool(first) and first[0].ast is h.body[0] and len(h.body) == 1
+    # an except clause may name its classes directly or through a module-level table
+    from ..condeval import ev, Unknown, Inst
+    from .common import module_constants
+    consts = module_constants(ctx, fi.module.name, {"__sym__": True, "__index__": ctx.index})
+
+    def caught(h):
+        if h.type is None:
+            return [""]
+        out = []
+        for e_ in (h.type.elts if isinstance(h.type, ast.Tuple) else [h.type]):
+            v = consts.get(e_.id) if isinstance(e_, ast.Name) else None
+            if isinstance(v, tuple) and v and all(isinstance(x, str) for x in v):
+                out += [str(x).split(".")[-1] for x in v]
+            else:
+                out.append(norm(e_))
+        return out
+
+    def answer(h, hn, exc_name):
+        """(cannot complete, alert description) of one handler for one exception class"""
+        inside = [n for n in g.nodes if n.id in g.reach([hn], follow_exc=False)]
+        nr = [n for n in inside if n.kind == "noreturn"]
+        lo, hi = h.lineno, getattr(h, "end_lineno", h.lineno)
+        closed = bool(nr) and g.exit.id not in {n.id for n in inside} and \
+            all(lo <= n.line <= hi for n in inside if n.ast is not None)
+        if not nr:
+            return closed, None
+        d = senderror_desc(nr[0])
+        arg = nr[0].call.args[0] if nr[0].call.args else None
+        if isinstance(arg, ast.Name):
+            # the description is computed: evaluate the handler's assignments for this exception class
+            env = {"__sym__": True, "__index__": ctx.index, "__exc__": ctx.an.exc}
+            for k_, v_ in consts.items():
+                if isinstance(k_, str) and not k_.startswith("__"):
+                    env[k_] = v_
+                    env["__const__" + k_] = v_
+            if h.name:
+                env[h.name] = Inst(exc_name)
+            try:
+                for st in h.body:
+                    if isinstance(st, ast.Assign) and len(st.targets) == 1:
+                        val = ev(st.value, env)
+                        tg = st.targets[0]
+                        if isinstance(tg, ast.Name):
+                            env[tg.id] = val
+                        elif isinstance(tg, ast.Tuple) and all(isinstance(x, ast.Name) for x in tg.elts) \
+                                and isinstance(val, tuple) and len(val) == len(tg.elts):
+                            for x, v_ in zip(tg.elts, val):
+                                env[x.id] = v_
+                d = str(ev(arg, env)).split(".")[-1]
+            except (Unknown, TypeError, AttributeError, KeyError, IndexError):
+                d = None
+        return closed, d
     ctx.info["recvRecord_protocol_exceptions"] = sorted(raised)
-    for e in sorted(raised):
-        hit = [t for t in handled if ctx.an.exc.is_sub(e, t)]
-        ctx.check(R, bool(hit) and all(handled[t] for t in hit), fi.qname, "%s -> fatal alert" % e,
-                  "recvRecord can raise %s but _getNextRecordFromSocket does not turn it into a fatal alert "
-                  "(_sendError): the failure would surface without alert / shutdown" % e, fi.loc())
     want = {"TLSUnexpectedMessage": "unexpected_message", "TLSRecordOverflow": "record_overflow",
             "TLSIllegalParameterException": "illegal_parameter", "TLSDecryptionFailed": "decryption_failed",
             "TLSBadRecordMAC": "bad_record_mac"}
-    for (tr, h, hn) in g.handlers:
-        ty = norm(h.type or ast.Name(id=""))
-        if ty in want:
-            nr = [n for n in g.nodes if n.kind == "noreturn" and n.ast is h.body[0]]
-            ctx.check(R, bool(nr) and senderror_desc(nr[0]) == want[ty], fi.qname, "%s answered with %s" % (ty, want[ty]),
-                      "%s must be answered with the %s alert" % (ty, want[ty]), fi.loc(h))
+    for e in sorted(raised | set(want)):
+        hit = [(h, hn) for (tr, h, hn) in g.handlers if any(ctx.an.exc.is_sub(e, t) for t in caught(h))]
+        hit = hit[:1]           # the first matching clause is the one that runs
+        res = [answer(h, hn, e) for h, hn in hit]
+        if e in raised:
+            ctx.check(R, bool(res) and all(c for c, _ in res), fi.qname, "%s -> fatal alert" % e,
+                      "recvRecord can raise %s but _getNextRecordFromSocket does not turn it into a fatal alert "
+                      "(_sendError): the failure would surface without alert / shutdown" % e, fi.loc())
+        if e in want and res:
+            ctx.check(R, res[0][1] == want[e], fi.qname, "%s answered with %s" % (e, want[e]),
+                      "%s must be answered with the %s alert (found %s)" % (e, want[e], res[0][1]), fi.loc(hit[0][0]))
     ctx.require(len(raised) >= 4, "C02.MAP: exception summary of recvRecord too small")
     # _sendError: send alert, shutdown(False), raise - in that order, on every path
     se = ctx.index.func(TLSREC + "_sendError")
